@@ -160,7 +160,23 @@ def run_case(case, tier):
     ter = [pdbio.raw("TER")]
     ta, tb = pdbio.dump(a), pdbio.dump(b)
     tab, tba = pdbio.dump(a + ter + b), pdbio.dump(b + ter + a)
-    ra, rb = obs.run_single(ta, write_pka=False), obs.run_single(tb, write_pka=False)
+    ra, rb = obs.run_single(ta, write_pka=False, debug_iterative=True), obs.run_single(tb, write_pka=False, debug_iterative=True)
+
+    def sweeps(run):
+        """Number of solver sweeps per conformation, read from the DEBUG records of propka.iterative."""
+        n, capped = 0, False
+        for (lg, lvl, msg) in run.logs or []:
+            if lg == "propka.iterative":
+                if msg.startswith("            ") and msg.split() and msg.split()[-1].isdigit():
+                    n = max(n, int(msg.split()[-1]))
+                if "did not converge" in msg:
+                    capped = True
+        return n, capped
+    sa, sb = sweeps(ra), sweeps(rb)
+    if sa[0] != sb[0]:
+        classes.append("parts-need-different-sweep-counts")
+    if sa[1] or sb[1]:
+        classes.append("part-hits-the-10-sweep-cap")
     rab, rba = obs.run_single(tab, write_pka=False), obs.run_single(tba, write_pka=False)
     counts["pipeline_runs"] = 4
     box = pdbio.bbox(a + b)
